@@ -34,6 +34,8 @@ Inductive hev :=
     (* hook: SendHandshakeInitiation(false) for peer p *)
 | HRestart
     (* Device.Down(); Device.Up() *)
+| HSetKey (new : kid)
+    (* UAPI private_key=<key new>: the device's identity changes *)
 | HCookie (keykid : kid) (msgx adx : N) (garbage : bool) (cid : N).
     (* a cookie reply addressed to the sender index of the device's handshake message of exchange msgx,
        sealed under Hash("cookie--" || pub(keykid)) with the MAC1 of the device's message of exchange adx
@@ -189,6 +191,9 @@ Definition wstep (w : world) (h : hev) : world * list out * N :=
       let '(d', outs) := dev_step (w_dev w) (EKick p e ts idx) in
       ({| w_dev := d'; w_sess := w_sess w; w_dinits := remember_inits xid outs (w_dinits w);
           w_dmsgs := remember_msgs xid outs (w_dmsgs w); w_cookies := w_cookies w |}, outs, 0)
+  | HSetKey new =>
+      let '(d', outs) := dev_step (w_dev w) (ESetPrivateKey new) in
+      ({| w_dev := d'; w_sess := w_sess w; w_dinits := w_dinits w; w_dmsgs := w_dmsgs w; w_cookies := w_cookies w |}, outs, 0)
   | HRestart =>
       let '(d', outs) := dev_step (w_dev w) ERestart in
       ({| w_dev := d'; w_sess := w_sess w; w_dinits := w_dinits w; w_dmsgs := w_dmsgs w; w_cookies := w_cookies w |}, outs, 0)
@@ -208,7 +213,8 @@ Definition wstep (w : world) (h : hev) : world * list out * N :=
 Definition init_world (c : case) : world :=
   {| w_dev := {| d_static := c_dev c;
                  d_peers := map (fun kp => new_peer (fst kp) (new_handshake (Some (c_dev c)) (fst kp) (psk_term (snd kp))))
-                                (c_conf c) |};
+                                (c_conf c);
+                 d_olds := [] |};
      w_sess := []; w_dinits := []; w_dmsgs := []; w_cookies := [] |}.
 
 Fixpoint nlist_eqb (a b : list N) : bool :=
@@ -230,7 +236,7 @@ Fixpoint compare (c : case) (w : world) (steps : list (hev * obs)) (i : N) : opt
   | [] => None
   | (h, o) :: rest =>
       let '(w', outs, verdict) := wstep w h in
-      let pred := map (describe (c_dev c) (c_parties c) w') outs in
+      let pred := map (describe (d_static (w_dev w')) (c_parties c) w') outs in
       if nll_eqb pred (o_outs o) && (verdict =? o_ref o) &&
          nll_eqb (map peer_state (d_peers (w_dev w'))) (o_peers o)
       then compare c w' rest (i + 1) else Some i
@@ -249,7 +255,13 @@ Record sp := { sp_k : kid; sp_maxts : N; sp_open : option N; sp_cur : option N; 
                sp_lastmsg : N;   (* exchange of the last handshake message the device sent to this peer *)
                sp_ck : bool }.   (* a cookie reply that is authentic BY CONSTRUCTION was delivered for this peer *)
 Record xinfo := { x_id : N; x_peer : kid; x_good : bool }.
-Record sstate := { ss_sp : list sp; ss_x : list xinfo; ss_di : list (N * kid) }.
+Record sstate := { ss_sp : list sp; ss_x : list xinfo; ss_di : list (N * kid);
+                   ss_dv : kid;            (* the device's current static key *)
+                   ss_dead : list kid;     (* peers whose [current] keypair was expired by a key change *)
+                   ss_dis : list (N * kid) }.  (* device initiations: the identity they were made under *)
+Definition sstate0 (dv : kid) : sstate := {| ss_sp := []; ss_x := []; ss_di := []; ss_dv := dv; ss_dead := []; ss_dis := [] |}.
+Definition undead (l : list kid) (p : kid) : list kid := filter (fun x => negb (Nat.eqb x p)) l.
+Definition is_dead (l : list kid) (p : kid) : bool := existsb (Nat.eqb p) l.
 
 Fixpoint get_sp (l : list sp) (k : kid) : sp :=
   match l with
@@ -292,7 +304,8 @@ Definition transport_ok (xs : list xinfo) (d : list N) : bool :=
 Definition no_kind (k : N) (l : list (list N)) : bool := forallb (fun d => negb (is_kind k d)) l.
 Definition count_kind (k : N) (l : list (list N)) : nat := length (filter (is_kind k) l).
 
-Definition sstep (dv : kid) (conf : list (kid * nat)) (s : sstate) (h : hev) (o : obs) : sstate * bool :=
+Definition sstep (conf : list (kid * nat)) (s : sstate) (h : hev) (o : obs) : sstate * bool :=
+  let dv := ss_dv s in
   let outs := o_outs o in
   let base := forallb (hs_msg_ok conf (ss_sp s)) outs in
   match h with
@@ -319,13 +332,14 @@ Definition sstep (dv : kid) (conf : list (kid * nat)) (s : sstate) (h : hev) (o 
                    sp_last := if responded then Some xid else sp_last q;
                    sp_lastmsg := if responded then xid else sp_lastmsg q; sp_ck := sp_ck q |} in
       ({| ss_sp := put_sp (ss_sp s) q'; ss_x := {| x_id := xid; x_peer := sk; x_good := good |} :: ss_x s;
-          ss_di := ss_di s |}, ok)
+          ss_di := ss_di s; ss_dv := ss_dv s; ss_dead := ss_dead s; ss_dis := ss_dis s |}, ok)
   | HRResp xid ans r pskid e idx =>
       match get_di (ss_di s) ans with
       | None => (s, false)
       | Some p =>
         let same_psk := match conf_psk conf p with Some q => Nat.eqb q pskid | None => false end in
-        let good := Nat.eqb r p && same_psk in
+        let cur_id := match get_di (ss_dis s) ans with Some i => Nat.eqb i dv | None => false end in
+        let good := Nat.eqb r p && same_psk && cur_id in
         let q := get_sp (ss_sp s) p in
         let pending := oeq (sp_open q) ans in
         let accepted := negb (no_kind 4 outs) in
@@ -335,14 +349,18 @@ Definition sstep (dv : kid) (conf : list (kid * nat)) (s : sstate) (h : hev) (o 
              and answers its open initiation *)
           Bool.eqb accepted (good && pending) &&
           forallb (fun d => if is_kind 4 d then (nth0 d 3 =? xid) && (nth0 d 1 =? k2n p) && (nth0 d 2 =? idx) else true) outs &&
-          (o_ref o =? (if Nat.eqb r p then 1 else 2)) &&
+          (* ref opens the initiation iff it holds the addressed key, and finds the device's CURRENT key in it
+             iff the initiation was made under the current identity *)
+          (o_ref o =? (if Nat.eqb r p && (match get_di (ss_dis s) ans with Some i => Nat.eqb i dv | None => false end)
+                       then 1 else 2)) &&
           no_kind 1 outs && no_kind 2 outs && no_kind 5 outs in
         let q' := {| sp_k := p; sp_maxts := sp_maxts q; sp_open := if accepted then None else sp_open q;
                      sp_cur := if accepted then Some xid else sp_cur q;
                      sp_last := if accepted then Some xid else sp_last q;
                      sp_lastmsg := sp_lastmsg q; sp_ck := sp_ck q |} in
         ({| ss_sp := put_sp (ss_sp s) q'; ss_x := {| x_id := xid; x_peer := p; x_good := good |} :: ss_x s;
-            ss_di := ss_di s |}, ok)
+            ss_di := ss_di s; ss_dv := ss_dv s;
+            ss_dead := if accepted then undead (ss_dead s) p else ss_dead s; ss_dis := ss_dis s |}, ok)
       end
   | HRData xid ctr ka =>
       match get_x (ss_x s) xid with
@@ -362,7 +380,8 @@ Definition sstep (dv : kid) (conf : list (kid * nat)) (s : sstate) (h : hev) (o 
         let q' := {| sp_k := sp_k q; sp_maxts := sp_maxts q; sp_open := sp_open q;
                      sp_cur := if wrote && oeq (sp_last q) xid then Some xid else sp_cur q; sp_last := sp_last q;
                      sp_lastmsg := sp_lastmsg q; sp_ck := sp_ck q |} in
-        ({| ss_sp := put_sp (ss_sp s) q'; ss_x := ss_x s; ss_di := ss_di s |}, ok)
+        ({| ss_sp := put_sp (ss_sp s) q'; ss_x := ss_x s; ss_di := ss_di s; ss_dv := ss_dv s;
+            ss_dead := if wrote && oeq (sp_last q) xid then undead (ss_dead s) (x_peer xi) else ss_dead s; ss_dis := ss_dis s |}, ok)
       end
   | HTun xid p e ts idx | HKick xid p e ts idx =>
       let q := get_sp (ss_sp s) p in
@@ -373,7 +392,7 @@ Definition sstep (dv : kid) (conf : list (kid * nat)) (s : sstate) (h : hev) (o 
         forallb (fun d => if is_kind 1 d then nth0 d 1 =? k2n p else true) outs &&
         forallb (fun d => if is_kind 4 d then nth0 d 1 =? k2n p else true) outs &&
         (if is_tun then
-           match sp_cur q with
+           match (if is_dead (ss_dead s) p then None else sp_cur q) with
            | Some x => (* mirrored keys: the packet leaves under the keys of the confirmed exchange *)
                negb initiated && (Nat.eqb (count_kind 4 outs) 1) &&
                forallb (fun d => if is_kind 4 d then (nth0 d 3 =? x) && (nth0 d 4 =? 0) else true) outs
@@ -385,13 +404,21 @@ Definition sstep (dv : kid) (conf : list (kid * nat)) (s : sstate) (h : hev) (o 
                    sp_cur := sp_cur q; sp_last := sp_last q;
                    sp_lastmsg := if initiated then xid else sp_lastmsg q; sp_ck := sp_ck q |} in
       ({| ss_sp := put_sp (ss_sp s) q'; ss_x := ss_x s;
-          ss_di := if initiated then (xid, p) :: ss_di s else ss_di s |}, ok)
+          ss_di := if initiated then (xid, p) :: ss_di s else ss_di s; ss_dv := ss_dv s; ss_dead := ss_dead s;
+          ss_dis := if initiated then (xid, ss_dv s) :: ss_dis s else ss_dis s |}, ok)
+  | HSetKey new =>
+      (* the identity changes: open initiations are void, nothing more is sent under the keypairs
+         negotiated so far (they may still receive); nothing is emitted *)
+      ({| ss_sp := map (fun q => {| sp_k := sp_k q; sp_maxts := sp_maxts q; sp_open := None; sp_cur := sp_cur q;
+                                    sp_last := sp_last q; sp_lastmsg := sp_lastmsg q; sp_ck := sp_ck q |}) (ss_sp s);
+          ss_x := ss_x s; ss_di := ss_di s; ss_dv := new; ss_dead := map fst conf; ss_dis := ss_dis s |},
+       match outs with [] => true | _ => false end)
   | HRestart =>
       (* every peer stopped and started: keypairs and open handshakes are gone, nothing is sent;
          the configuration (and the greatest timestamp) stays *)
       ({| ss_sp := map (fun q => {| sp_k := sp_k q; sp_maxts := sp_maxts q; sp_open := None; sp_cur := None;
                                     sp_last := None; sp_lastmsg := sp_lastmsg q; sp_ck := sp_ck q |}) (ss_sp s);
-          ss_x := ss_x s; ss_di := ss_di s |},
+          ss_x := ss_x s; ss_di := ss_di s; ss_dv := ss_dv s; ss_dead := ss_dead s; ss_dis := ss_dis s |},
        match outs with [] => true | _ => false end)
   | HCookie keykid msgx adx garbage cid =>
       let peer := match get_di (ss_di s) msgx with
@@ -405,7 +432,7 @@ Definition sstep (dv : kid) (conf : list (kid * nat)) (s : sstate) (h : hev) (o 
         let authentic := negb garbage && Nat.eqb keykid p && (adx =? sp_lastmsg q) && negb (adx =? 0) in
         let q' := {| sp_k := p; sp_maxts := sp_maxts q; sp_open := sp_open q; sp_cur := sp_cur q; sp_last := sp_last q;
                      sp_lastmsg := sp_lastmsg q; sp_ck := sp_ck q || authentic |} in
-        ({| ss_sp := put_sp (ss_sp s) q'; ss_x := ss_x s; ss_di := ss_di s |},
+        ({| ss_sp := put_sp (ss_sp s) q'; ss_x := ss_x s; ss_di := ss_di s; ss_dv := ss_dv s; ss_dead := ss_dead s; ss_dis := ss_dis s |},
          match outs with [] => true | _ => false end)   (* a cookie reply is never answered *)
       end
   end.
@@ -422,16 +449,16 @@ Definition slots_ok (conf : list (kid * nat)) (s : sstate) (o : obs) : bool :=
              Bool.eqb (negb (nth0 ps 2 =? 0)) (match sp_cur q with Some _ => true | None => false end))
           (combine conf (o_peers o)).
 
-Fixpoint holds_from (dv : kid) (conf : list (kid * nat)) (s : sstate) (steps : list (hev * obs)) (i : N) : option N :=
+Fixpoint holds_from (conf : list (kid * nat)) (s : sstate) (steps : list (hev * obs)) (i : N) : option N :=
   match steps with
   | [] => None
   | (h, o) :: rest =>
-      let '(s', ok) := sstep dv conf s h o in
-      if ok && slots_ok conf s' o then holds_from dv conf s' rest (i + 1) else Some i
+      let '(s', ok) := sstep conf s h o in
+      if ok && slots_ok conf s' o then holds_from conf s' rest (i + 1) else Some i
   end.
 
 Definition holdsb (c : case) : bool :=
-  match holds_from (c_dev c) (c_conf c) {| ss_sp := []; ss_x := []; ss_di := [] |} (c_steps c) 0 with
+  match holds_from (c_conf c) (sstate0 (c_dev c)) (c_steps c) 0 with
   | None => true | Some _ => false end.
 
 (* ---------------------------------------------------------------- wire layout
@@ -466,7 +493,7 @@ Fixpoint raw_from (steps : list (hev * obs)) (i : N) : option N :=
 (* ---------------------------------------------------------------- driver *)
 Definition check_case (c : case) : list (N * N) :=
   (match compare c (init_world c) (c_steps c) 0 with Some i => [(1, i)] | None => [] end) ++
-  (match holds_from (c_dev c) (c_conf c) {| ss_sp := []; ss_x := []; ss_di := [] |} (c_steps c) 0 with
+  (match holds_from (c_conf c) (sstate0 (c_dev c)) (c_steps c) 0 with
    | Some i => [(2, i)] | None => [] end) ++
   (match raw_from (c_steps c) 0 with Some i => [(2, 1000 + i)] | None => [] end).
 
@@ -477,7 +504,7 @@ Fixpoint check_cases (ks : list case) (idx : N) : list (N * N * N) :=
   end.
 
 (* statistics: [initiations accepted; initiations refused; responses accepted; responses refused;
-                data accepted; data refused; device initiations; completed by ref; refused by ref; restarts; cookie replies] *)
+                data accepted; data refused; device initiations; completed by ref; refused by ref; restarts; cookie replies; key changes] *)
 Fixpoint bump (l : list N) (i : nat) : list N :=
   match l, i with
   | [], _ => []
@@ -493,13 +520,14 @@ Definition stat_step (st : list N) (ho : hev * obs) : list N :=
             | HRResp _ _ _ _ _ _ => bump st (if no_kind 4 outs then 3 else 2)
             | HRData _ _ ka => if ka then st else bump st (if no_kind 5 outs then 5 else 4)
             | HTun _ _ _ _ _ | HKick _ _ _ _ _ => if no_kind 1 outs then st else bump st 6
+            | HSetKey _ => bump st 11
             | HRestart => bump st 9
             | HCookie _ _ _ _ _ => bump st 10
             end in
   match o_ref o with 1 => bump st 7 | 2 => bump st 8 | _ => st end.
 
 Definition stats (ks : list case) : list N :=
-  fold_left (fun st k => fold_left stat_step (c_steps k) st) ks [0;0;0;0;0;0;0;0;0;0;0].
+  fold_left (fun st k => fold_left stat_step (c_steps k) st) ks [0;0;0;0;0;0;0;0;0;0;0;0].
 
 (* ---------------------------------------------------------------- case-file glue *)
 Definition mk_obs (outs : list (list N)) (rf : N) (peers : list (list N))
@@ -517,6 +545,7 @@ Definition rdata (xid ctr ka : N) : hev := HRData xid ctr (negb (ka =? 0)).
 Definition tun (xid p e ts idx : N) : hev := HTun xid (n2k p) (n2k e) ts idx.
 Definition kick (xid p e ts idx : N) : hev := HKick xid (n2k p) (n2k e) ts idx.
 Definition restart : hev := HRestart.
+Definition setkey (new : N) : hev := HSetKey (n2k new).
 Definition cookie (keykid msgx adx garbage cid : N) : hev := HCookie (n2k keykid) msgx adx (negb (garbage =? 0)) cid.
 Definition mk_case (dv : N) (conf : list (N * N)) (parties : list N) (steps : list (hev * obs)) : case :=
   {| c_dev := n2k dv; c_conf := map (fun p => (n2k (fst p), N.to_nat (snd p))) conf;
